@@ -625,6 +625,12 @@ var _ rpc.Resources
 //@   requires e != nil
 //@   assumes s != nil && (s.err != nil ==> reserr.predErrOK(s.err))
 //@   ensures[C16] result == nil ==> len(e.path) == old(len(e.path)) && (forall k int :: 0 <= k && k < len(e.path) ==> e.path[k] == old(e.path[k]))
+// (the id looked up on the expansion path is the id that is pushed onto it - the subscription's
+// own resource id, query included - and the href is built from that id)
+//@   assert[C16] containsString#1: arg1 == s.rid && len(arg0) == old(len(e.path)) && (forall k int :: 0 <= k && k < len(arg0) ==> arg0[k] == old(e.path[k]))
+//@   assert[C16] RIDToPath#1: arg0 == s.rid
+//@   loop 1 invariant[C16] e.path[old(len(e.path))] == s.rid
+//@   loop 2 invariant[C16] e.path[old(len(e.path))] == s.rid
 //@   loop 1 invariant len(e.path) == old(len(e.path)) + 1 && (forall k int :: 0 <= k && k < old(len(e.path)) ==> e.path[k] == old(e.path[k]))
 //@   loop 2 invariant len(e.path) == old(len(e.path)) + 1 && (forall k int :: 0 <= k && k < old(len(e.path)) ==> e.path[k] == old(e.path[k]))
 //@ func (*encoderJSON).encodeValue
@@ -634,6 +640,12 @@ var _ rpc.Resources
 //@   requires e != nil
 //@   assumes s != nil && (s.err != nil ==> reserr.predErrOK(s.err))
 //@   ensures[C16] result == nil ==> len(e.path) == old(len(e.path)) && (forall k int :: 0 <= k && k < len(e.path) ==> e.path[k] == old(e.path[k]))
+// (the id looked up on the expansion path is the id that is pushed onto it - the subscription's
+// own resource id, query included - and the href is built from that id)
+//@   assert[C16] containsString#1: arg1 == s.rid && len(arg0) == old(len(e.path)) && (forall k int :: 0 <= k && k < len(arg0) ==> arg0[k] == old(e.path[k]))
+//@   assert[C16] RIDToPath#1: arg0 == s.rid
+//@   loop 1 invariant[C16] e.path[old(len(e.path))] == s.rid
+//@   loop 2 invariant[C16] e.path[old(len(e.path))] == s.rid
 //@   loop 1 invariant len(e.path) == old(len(e.path)) + 1 && (forall k int :: 0 <= k && k < old(len(e.path)) ==> e.path[k] == old(e.path[k]))
 //@   loop 2 invariant len(e.path) == old(len(e.path)) + 1 && (forall k int :: 0 <= k && k < old(len(e.path)) ==> e.path[k] == old(e.path[k]))
 //@ func (*encoderJSONFlat).encodeValue
